@@ -687,7 +687,7 @@ func init() {
 				return
 			}
 			inbound, _ := constValue(c.P, "core/base.Inbound")
-			inboundGuard := fmt.Sprintf("%d == ctx.Resource.FlowType()", inbound)
+			inboundGuard := fmt.Sprintf("%d == {EntryContext}.Resource.FlowType()", inbound)
 			type sig struct {
 				nodes map[string][]effect
 			}
@@ -757,8 +757,8 @@ func init() {
 					c.Hold(key, f.Pos(), "%s performs exactly [%s]", what, strings.Join(got, " ; "))
 				}
 			}
-			batch := "int64(ctx.Input.BatchCount)"
-			nodes := []struct{ path, guard string }{{"ctx.StatNode", ""}, {"core/stat.InboundNode()", inboundGuard}}
+			batch := "int64({EntryContext}.Input.BatchCount)"
+			nodes := []struct{ path, guard string }{{"{EntryContext}.StatNode", ""}, {"core/stat.InboundNode()", inboundGuard}}
 			if f, m := get("OnEntryPassed"); f != nil {
 				for _, nd := range nodes {
 					checkNode(f, "OnEntryPassed", nd.path, m[nd.path], []string{"IncreaseConcurrency", "AddCount(MetricEventPass," + batch + ")"}, nd.guard)
@@ -778,12 +778,12 @@ func init() {
 				}
 			}
 			if f, m := get("OnCompleted"); f != nil {
-				rt := "int64((util.CurrentTimeMillis() - ctx.StartTime()))"
+				rt := "int64((util.CurrentTimeMillis() - {EntryContext}.StartTime()))"
 				for _, nd := range nodes {
 					checkNode(f, "OnCompleted", nd.path, m[nd.path], []string{
 						"AddCount(MetricEventRt," + rt + ")",
 						"AddCount(MetricEventComplete," + batch + ")",
-						"AddCount(MetricEventError," + batch + ") if ctx.Err() != nil",
+						"AddCount(MetricEventError," + batch + ") if nil != {EntryContext}.Err()",
 						"DecreaseConcurrency"}, nd.guard)
 					delete(m, nd.path)
 				}
